@@ -90,14 +90,19 @@ class patched:
     def __init__(self, *triples):
         self.triples = triples
 
+    _MISSING = object()
+
     def __enter__(self):
-        self.saved = [(o, a, getattr(o, a)) for o, a, _ in self.triples]
+        self.saved = [(o, a, getattr(o, a, self._MISSING)) for o, a, _ in self.triples]
         for o, a, v in self.triples:
             setattr(o, a, v)
 
     def __exit__(self, *exc):
         for o, a, v in self.saved:
-            setattr(o, a, v)
+            if v is self._MISSING:
+                delattr(o, a)
+            else:
+                setattr(o, a, v)
 
 
 def bundle_dims(S, n_ring, n_duct, wire=True):
